@@ -73,7 +73,7 @@ static std::string run_poisson(int poly, int lmin, int seed, long* npts) {
     if (mind < l_min * (1 - 1e-9)) { snprintf(buf, sizeof buf, "sample-points-closer-than-l_min: %.9g < %.9g (%zu points)", mind, l_min, pts.size()); return buf; } return "ok"; }
 
 static void explore(Result& R) {
-    const bool th = R.args.thorough(); setup(); const int K = th ? 12 : 2; long cases = 0, ok = 0, rej = 0, unit = 0, npts = 0; double worst_v = 0, worst_d = 0;
+    const bool th = R.args.thorough(); setup(); const int K = th ? 12 : 2; long cases = 0, ok = 0, rej = 0, unit = 0, npts = 0, poisson_nonempty = 0; double worst_v = 0, worst_d = 0;
     std::string dir = std::string(getenv("VERIF_DIR") ? getenv("VERIF_DIR") : ".") + "/build/run/C13-" + std::to_string(getpid());
     for (int p = 0; p < (int)g_polys.size(); p++) for (int l = 0; l < 3; l++) for (int t = 0; t < 2; t++) for (int k = 0; k < (t ? K : 1); k++) {
         if (!R.args.mine(unit++)) continue; if (R.out_of_time(0.85)) { R.cap("deadline"); goto poisson; }
@@ -93,13 +93,13 @@ static void explore(Result& R) {
 poisson:
     for (int p = 0; p < (int)g_polys.size(); p++) for (int l = 0; l < 2; l++) for (int k = 0; k < (th ? 6 : 1); k++) { if (!R.args.mine(unit++)) continue; if (R.out_of_time(0.95)) { R.cap("deadline (poisson block)"); break; }
         ForkOut fo = run_forked([&](char* buf, size_t cap) { long n = 0; std::string r = run_poisson(p, l, k, &n); snprintf(buf, cap, "%ld|%s", n, r.c_str()); }, 300); cases++;
-        std::string err; if (fo.status != 0) err = "sampling-crashes-or-hangs: status " + std::to_string(fo.status); else { npts += atol(fo.data.c_str()); std::string r = fo.data.substr(fo.data.find('|') + 1); if (r != "ok" && r != "skip") err = r; }
+        std::string err; if (fo.status != 0) err = "sampling-crashes-or-hangs: status " + std::to_string(fo.status); else { npts += atol(fo.data.c_str()); if (atol(fo.data.c_str()) > 1) poisson_nonempty++; std::string r = fo.data.substr(fo.data.find('|') + 1); if (r != "ok" && r != "skip") err = r; }
         if (!err.empty()) R.violation(clause_of(err), g_polys[p].name + ", l_min/size " + jnum(LM[l]) + ", seed " + std::to_string(k) + ": " + err, "mode=poisson\npoly=" + std::to_string(p) + "\nlmin=" + std::to_string(l) + "\nseed=" + std::to_string(k) + "\n"); }
     std::error_code ec; std::filesystem::remove_all(dir, ec);
-    R["evaluations"] = cases; R["states"] = cases; R["transitions"] = cases; R["distinct_nontrivial"] = cases; R["traces_validated_against_impl"] = cases; R["cells_returned"] = ok; R["clean_rejections"] = rej; R["poisson_points_checked_pairwise"] = npts;
+    R["evaluations"] = cases; R["states"] = cases; R["transitions"] = cases; R["distinct_nontrivial"] = ok + poisson_nonempty; R["traces_validated_against_impl"] = cases; R["cells_returned"] = ok; R["clean_rejections"] = rej; R["poisson_points_checked_pairwise"] = npts;
     R.reals["worst_relative_volume_error_over_(l_max/size)"] = worst_v; R.reals["worst_node_distance_over_l_max"] = worst_d;
     if (R.args.nshards == 1 && !ok) R.internal_error = "no cell was ever returned (vacuous)";
-    R.strings["rule"] = "a case = (closed polyhedron, l_min/size, initial triangulation on/off, seed of the guarded RNG seam), run through the real simulation_initializer in a forked child; a returned cell must pass the independent mesh oracle, enclose the input volume within (l_max/size) relative, keep its box and every node within l_max of the input surface; otherwise the outcome must be an exception; the Poisson cloud of the public sampler is checked pairwise";
+    R.strings["rule"] = "distinct_nontrivial = cases (distinct tuples by construction) that returned a cell which was then judged + sampling runs that produced at least two points; a case = (closed polyhedron, l_min/size, initial triangulation on/off, seed of the guarded RNG seam), run through the real simulation_initializer in a forked child; a returned cell must pass the independent mesh oracle, enclose the input volume within (l_max/size) relative, keep its box and every node within l_max of the input surface; otherwise the outcome must be an exception; the Poisson cloud of the public sampler is checked pairwise";
     R.assumptions = {"volume tolerance: relative error <= 1.0 * l_max/size (worst observed value is reported)", "reference volume by fan decomposition about the centroid (all shapes star-shaped) except the L prism (exact 3 s^3)", "sampling outcomes: the enumerated seeds only"};
 }
 static int replay(const Replay& rp, Result& R) { setup(); std::string r; if (rp.get("mode") == "poisson") { long n = 0; r = run_poisson((int)rp.geti("poly"), (int)rp.geti("lmin"), (int)rp.geti("seed"), &n); } else { Case c; std::istringstream i(rp.get("case")); i >> c.poly >> c.lmin >> c.tri >> c.seed; printf("%s\n", case_json(c).c_str()); r = run_case(c, "build/run/C13-replay"); }
